@@ -33,7 +33,8 @@ EXTENDS Integers, FiniteSets, Sequences, TLC
 VARIABLES rules,   \* set of [f |-> Ip, t |-> Ip]: ranges currently loaded
           lines,   \* the lines of the last successful Reload (sequence of Line records)
           qc,      \* queue configuration, constant after Init:
-                   \*   [cap, port, cip, bl, pool];  pool[i] = [ip, port, prio, ext]
+                   \*   [cap, port, cip, bl, pool, moved];  pool[i] = [ip, port, prio, ext];
+                   \*   cip / pool[i].prio follow the client's external address (moved: it changed)
           q,       \* queue content: set of [a |-> pool index, s |-> source]
           out      \* last Pop result [a, s] (a = 0: none); forgotten at Reload/Reset
 
@@ -148,32 +149,40 @@ MustNot(i)      == Port0(i) \/ Self(i) \/ BlockedA(i)
 \* IP; addresses of the host's public interfaces): allowed either way
 MayDrop(i)      == A(i).ext \/ A(i).ip = qc.cip
 SameAddr(i, j)  == A(i).ip = A(j).ip /\ A(i).port = A(j).port
-SamePrio(i, j)  == A(i).prio = A(j).prio
-PLeq(i, j)      == Leq(A(i).prio, A(j).prio)
 AddrsOf(S)      == {e.a : e \in S}
 SeqSet(sq)      == {sq[i] : i \in 1 .. Len(sq)}
+\* An element is [a, s, p]: address, source and the priority it was queued with.  The priority of an
+\* address is its BEP 40 priority w.r.t. the CURRENT client address (qc.pool[a].prio follows qc.cip).
+Elem(a, s)      == [a |-> a, s |-> s, p |-> A(a).prio]
 
 \* @obligation C18.q.port0     an address with port 0 never enters
-\* @obligation C18.q.self      the own listening address never enters
+\* @obligation C18.q.self      the own listening address (current client IP / loopback + listening port) never enters
 \* @obligation C18.q.blocked   an address blocked at push time never enters
 \* @obligation C18.q.spurious  nothing enters that was not pushed; the source is the pushed one
-\* @obligation C18.q.dup       no two elements with the same ip:port
+\* @obligation C18.q.prio      an address enters with its priority w.r.t. the current client address
+\* @obligation C18.q.dup       no two elements with the same ip:port (after a change of the client address the
+\*                             same ip:port may be queued once under its old and once under its new priority:
+\*                             the set is keyed by priority)
 \* @obligation C18.q.bound     never more than cap elements
 \* @obligation C18.q.lost      below capacity nothing admissible disappears (an address of equal
 \*                             priority taking its place is tolerated: the set is keyed by priority)
 PushViol(batch, s, new) ==
     LET bset  == SeqSet(batch)
         fresh == new \ q
-        cand  == AddrsOf(q) \cup {a \in bset : ~MustNot(a) /\ ~MayDrop(a)}
+        adm   == {a \in bset : ~MustNot(a) /\ ~MayDrop(a)}
+        cand  == AddrsOf(q) \cup adm
         lost  == cand \ AddrsOf(new)
+        \* the priorities under which address a was / would be queued
+        pr(a) == {e.p : e \in {x \in q : x.a = a}} \cup (IF a \in adm THEN {A(a).prio} ELSE {})
     IN  IF \E e \in fresh : ~(e.a \in bset /\ e.s = s) THEN "C18.q.spurious"
         ELSE IF \E e \in fresh : Port0(e.a) THEN "C18.q.port0"
         ELSE IF \E e \in fresh : Self(e.a) THEN "C18.q.self"
         ELSE IF \E e \in fresh : BlockedA(e.a) THEN "C18.q.blocked"
-        ELSE IF \E e1 \in new, e2 \in new : e1 # e2 /\ SameAddr(e1.a, e2.a) THEN "C18.q.dup"
+        ELSE IF \E e \in fresh : e.p # A(e.a).prio THEN "C18.q.prio"
+        ELSE IF \E e1 \in new, e2 \in new : e1 # e2 /\ SameAddr(e1.a, e2.a) /\ ~(qc.moved /\ e1.p # e2.p) THEN "C18.q.dup"
         ELSE IF Cardinality(new) > qc.cap THEN "C18.q.bound"
         ELSE IF Cardinality(new) < qc.cap
-                /\ \E a \in lost : ~\E b \in AddrsOf(new) : b # a /\ SamePrio(a, b) THEN "C18.q.lost"
+                /\ \E a \in lost : ~\E e \in new : e.a # a /\ e.p \in pr(a) THEN "C18.q.lost"
         ELSE ""
 
 \* @obligation C18.q.popnil     Pop returns nothing only if nothing (unblocked) is queued
@@ -183,14 +192,23 @@ PushViol(batch, s, new) ==
 \* @obligation C18.q.popremove  exactly the returned element leaves (blocked ones may be dropped too)
 PopViol(r, s, new) ==
     LET ok   == {e \in q : ~BlockedA(e.a)}
-        me   == [a |-> r, s |-> s]
+        mine == {e \in q : e.a = r /\ e.s = s}
+        me   == CHOOSE e \in mine : \A f \in mine : Leq(f.p, e.p)
     IN  IF r = 0 THEN (IF ok # {} THEN "C18.q.popnil"
                        ELSE IF ~(new \subseteq q) THEN "C18.q.popremove" ELSE "")
-        ELSE IF me \notin q THEN "C18.q.popmember"
+        ELSE IF mine = {} THEN "C18.q.popmember"
         ELSE IF BlockedA(r) THEN "C18.pop.blocked"
-        ELSE IF \E e \in ok : ~PLeq(e.a, r) THEN "C18.q.popmax"
+        ELSE IF \E e \in ok : ~Leq(e.p, me.p) THEN "C18.q.popmax"
         ELSE IF ~(new \subseteq (q \ {me})) \/ (\E e \in (q \ new) \ {me} : e \in ok) THEN "C18.q.popremove"
         ELSE ""
+
+\* The torrent learns (or changes) its external address: the list refers to that variable, so the own-address
+\* filter and the priorities of later pushes follow it.  The queued elements stay as they are.
+\* @obligation C18.q.setcip  a change of the client address does not change the queue content
+SetCipViol(new) == IF new # q THEN "C18.q.setcip" ELSE ""
+SetCipUpdate(cip, prios) ==
+    qc' = [qc EXCEPT !.cip = cip, !.moved = TRUE,
+                     !.pool = [i \in 1 .. Len(qc.pool) |-> [qc.pool[i] EXCEPT !.prio = prios[i]]]]
 
 \* @obligation C18.q.reset  Reset empties the queue
 ResetViol(new) == IF new # {} THEN "C18.q.reset" ELSE ""
@@ -214,8 +232,8 @@ Pop(r, s, new) ==
 
 \* the code as it is: Pop hands out the maximum without looking at the (possibly reloaded) rules
 PopAsIs(r, s) ==
-    /\ [a |-> r, s |-> s] \in q /\ \A e \in q : PLeq(e.a, r)
-    /\ q' = q \ {[a |-> r, s |-> s]} /\ out' = [a |-> r, s |-> s]
+    /\ Elem(r, s) \in q /\ \A e \in q : Leq(e.p, A(r).prio)
+    /\ q' = q \ {Elem(r, s)} /\ out' = [a |-> r, s |-> s]
     /\ UNCHANGED <<rules, lines, qc>>
 
 Reset ==
